@@ -111,7 +111,12 @@ static std::string handle(const std::vector<std::string>& a) {
         else if (v.is<JsonObjectConst>()) for (JsonPairConst kv : v.as<JsonObjectConst>()) n += 2 + slotsOf(kv.value());
         else if (const detail::VariantData* d = detail::VariantAttorney::getData(v)) {
           using detail::VariantType;       // a double or a 64-bit integer keeps its bytes in an extension slot
-          if (d->type() == VariantType::Double || d->type() == VariantType::Int64 || d->type() == VariantType::Uint64) n += 1;
+#if ARDUINOJSON_USE_DOUBLE
+          if (d->type() == VariantType::Double) n += 1;
+#endif
+#if ARDUINOJSON_USE_LONG_LONG
+          if (d->type() == VariantType::Int64 || d->type() == VariantType::Uint64) n += 1;
+#endif
         }
         return n;
       };
